@@ -894,15 +894,22 @@ Definition hop_ok (o : Z*Z*Z) : bool :=
    else if c =? 8 then b =? 0
    else false).
 
-(* k consecutive ticks fn, fn+1, .. (mod GSM_MAX_FN); the number of tdma_schedule_set() calls is summed up *)
-Fixpoint silent_ticks (n : nat) (cur : Z) (s : mfst) (total : Z) : option (mfst * Z) :=
-  match n with
-  | O => Some (s, total)
-  | S n' =>
+(* k consecutive ticks fn, fn+1, .. (mod GSM_MAX_FN); the number of tdma_schedule_set() calls is summed up.
+   Iterated with Pos.iter (recursion depth log k: the extracted code runs millions of ticks) *)
+Definition silent_step (st : option (Z * mfst * Z)) : option (Z * mfst * Z) :=
+  match st with
+  | Some (cur, s, total) =>
       match mf_schedule cur s with
-      | (FwOk cs, s') => silent_ticks n' ((cur + 1) mod fw_GSM_MAX_FN) s' (total + Z.of_nat (length cs))
+      | (FwOk cs, s') => Some ((cur + 1) mod fw_GSM_MAX_FN, s', total + Z.of_nat (length cs))
       | _ => None
       end
+  | None => None
+  end.
+
+Definition silent_ticks (k cur : Z) (s : mfst) : option (mfst * Z) :=
+  match (match k with Zpos p => Pos.iter silent_step (Some (cur, s, 0)) p | _ => Some (cur, s, 0) end) with
+  | Some (_, s', total) => Some (s', total)
+  | None => None
   end.
 
 Fixpoint hist_run (ops : list (Z*Z*Z)) (s : mfst) : option (list Z) :=
@@ -918,7 +925,7 @@ Fixpoint hist_run (ops : list (Z*Z*Z)) (s : mfst) : option (list Z) :=
         | _ => None
         end
       else if c =? 6 then
-        match silent_ticks (Z.to_nat b) a s 0 with
+        match silent_ticks b a s with
         | Some (s', tot) => match hist_run tl s' with
                             | Some out => Some ([ms_tasks s'; ms_tgt s'; ms_safe s'; tot] ++ out)
                             | None => None
